@@ -60,8 +60,10 @@ def cases(tier):
                                 if mix == "plain" and len(yrs) == 2:
                                     # the constraint names its years itself (ascending / descending) with year-specific budget factors or explicit totals;
                                     # "reuse": the same Optimization object is used for a second, different starting allocation
-                                    for tv in ("asc_bf", "desc_bf", "desc_total"):
+                                    for tv in ("asc_bf", "desc_bf", "desc_total", "asc_total_zero"):
                                         yield dict(kind="tsc", nprog=nprog, years=yrs, bf=bf, ltype=ltype, lo=lo, hi=hi, mix=mix, p3=p3, tsc_t=tv)
+                                if mix == "plain" and ltype == "abs":
+                                    yield dict(kind="tsc", nprog=nprog, years=yrs, bf=bf, ltype=ltype, lo=lo, hi=hi, mix=mix, p3=p3, solver_fault=True)
                                 if mix in ("plain", "paired") and lo == 0 and hi == 0:
                                     yield dict(kind="tsc", nprog=nprog, years=yrs, bf=bf, ltype=ltype, lo=lo, hi=hi, mix=mix, p3=p3, reuse=True)
     for minp, maxp in itertools.product([None, [0.2, 0.1, 0.0], [0.5, 0.5, 0.0]], [None, [0.6, 0.6, 0.6], [1.0, 0.3, 0.7]]):
@@ -223,6 +225,8 @@ def _run_tsc(case, holder, scale):
     # budget factor / explicit total per constrained year, as the constraint is told (bf_y is the oracle's table, keyed by year)
     tv = case.get("tsc_t")
     bf_y = {y: case["bf"] * (1.0 if (i == 0 or not tv) else 1.25) for i, y in enumerate(yrs)}
+    if tv == "asc_total_zero":
+        bf_y[yrs[-1]] = 0.0  # an explicit total of exactly 0 in the last constrained year: everything is to be switched off
     if not tv:
         tsc = at.TotalSpendConstraint(budget_factor=case["bf"])
     else:
@@ -272,12 +276,32 @@ def _run_tsc(case, holder, scale):
         c.add(hi_ if np.isfinite(hi_) else (3 * a if a > 0 else 25.0))
         opts.append(sorted(c))
     ncalls = nret = 0
+    fault = case.get("solver_fault")
     for prop in itertools.product(*opts):
         i2 = sc.dcp(ins)
         ncalls += 1
         try:
             opt.update_instructions(np.array(prop, dtype=float), i2)
-            opt.constrain_instructions(i2, hard)
+            if fault:
+                # environment answer under the explorer's control: the numerical solver reports non-convergence for this proposal.
+                # The outcome must be the signal (FailedConstraint) - or an allocation that meets the constraints; never a silent pass-through.
+                import scipy.optimize as so
+
+                orig_min = so.minimize
+
+                def failing(*a, **k):
+                    res = orig_min(*a, **k)
+                    res["success"] = False
+                    counters["solver_faults_injected"] = counters.get("solver_faults_injected", 0) + 1
+                    return res
+
+                so.minimize = failing
+                try:
+                    opt.constrain_instructions(i2, hard)
+                finally:
+                    so.minimize = orig_min
+            else:
+                opt.constrain_instructions(i2, hard)
         except FailedConstraint:
             counters["signalled_failed_constraint"] = counters.get("signalled_failed_constraint", 0) + 1
             continue
